@@ -134,7 +134,8 @@ DIRS = ["", "s", "s.d", "t/u", "t"]
 ROOT_ONLY = ["g.cxx", "h.tpp", "i.cl", "j.hpp", "k.c++", "l.ixx", "m.cc", "n.ipp", "o.txx"]
 FULL_TREE = [os.path.join(d, n) for d in DIRS for n in NAMES] + ROOT_ONLY
 PATTERNS = ["s", "s/", "s/*", "*.c", "**/a.c", "./s", "../w/s", "{WS}/s/a.c", "{WS}/t/", "a.c", "?.c", "s.d", "t/u/"]
-INPUTS = [["."], ["./"], ["{WS}"], ["s", "t", "a.c"], ["s/", "./s.d", ".", "s"], ["t/u/../../s/a.c", "a.c", "./a.c", "t"]]
+INPUTS = [["."], ["./"], ["{WS}"], ["s", "t", "a.c"], ["s/", "./s.d", ".", "s"], ["t/u/../../s/a.c", "a.c", "./a.c", "t"],
+          ["s", "{WS}/s/a.c", "{WS}/t", "t/u", "a.c", "{WS}/./a.c"]]     # one file reached by a relative and an absolute spelling
 SMALL = ["a.c", "A.C", "b.cpp", "e f.c", ".h.c", "x.y.c", "s/a.c", "s/b.cpp", "s.d/a.c", "t/u/a.c", "t/b.cpp", "c.h", "d.txt"]
 # extensions documented in `cppcheck --help` ("If a directory is given ... files are checked recursively")
 DOC_EXT = {".cpp", ".cxx", ".cc", ".c++", ".c", ".ipp", ".ixx", ".tpp", ".txx"}
